@@ -97,6 +97,38 @@ def negotiateCheck (dialed : Option PeerId) (proven : PeerId) : Except NegErr Pe
   | some d => if d ≠ proven then .error .peerIdMismatch else .ok proven
   | none => .ok proven
 
+/-! ## The representation of the expected id
+
+`PeerId` is compared structurally (`#[derive(PartialEq)]` over the multihash: code and digest). An id handed to the
+transport (`/p2p/<id>` of the dialed address, `PeerId::from_multihash` / `from_bytes` / `try_from_multiaddr`) may be in
+either form `from_multihash` accepts: the form `from_public_key_protobuf` derives (identity multihash for encodings of
+at most `MAX_INLINE_KEY_LENGTH` bytes, SHA2-256 above) or the SHA2-256 form ("Qm…") of ANY key encoding. Nothing in
+`negotiate_connection` converts between the two: a SHA2-256 expectation of an inlined key never equals the id the
+handshake derives — not even for the same key (observed on the real code: `PeerIdMismatch`). -/
+
+/-- How an expected id was written down. -/
+inductive IdForm where
+  | derived   -- `PublicKey::to_peer_id()` / `from_public_key_protobuf`
+  | sha256    -- `PeerId::from_multihash(Code::Sha2_256.digest(key_enc))`
+  deriving DecidableEq, Repr
+
+/-- `PeerId::from_multihash(Code::Sha2_256.digest(kb))`. -/
+def hashedIdOfEncoding (c : Crypto) (kb : Bytes) : Option PeerId :=
+  match Multihash.wrap SHA2_256_CODE (c.sha256 (toU8 kb)) with
+  | .ok mh =>
+    match PeerId.fromMultihash Consts.MAX_INLINE_KEY_LENGTH mh with
+    | .ok p => some p
+    | .error _ => none
+  | .error _ => none
+
+/-- The id of key encoding `kb` written in form `f`. -/
+def expectedIdOf (c : Crypto) (f : IdForm) (kb : Bytes) : Option PeerId :=
+  match f with
+  | .derived => match peerIdOfEncoding c kb with
+    | .ok p => some p
+    | .error _ => none
+  | .sha256 => hashedIdOfEncoding c kb
+
 /-! ## Where `dialed` comes from: the address handed to `TcpTransport::open` / `dial` -/
 
 /-- Host component of a dialed address: every family `multiaddr_to_socket_address` accepts. -/
